@@ -111,11 +111,9 @@ Lemma checker_rejects_dropped :
            FUEL (index_of "Install.RunWithContext" expected) (env_of (sc_fl s_install)) = false.
 Proof. vm_compute. reflexivity. Qed.
 
-(* a limit, stated: "the resource wait is followed by nothing" is a path of the skeleton,
-   because performInstallCtx may return the context's error (the select on ctx.Done()) after
-   the goroutine has run, and the translator cannot see that ctx.Err() is non-nil there *)
-Lemma checker_accepts_uncorrelated :
+(* ... and "the resource wait is the last effect" (a failed wait that nobody handles) is no
+   path either: performInstall returns the error, RunWithContext must call failRelease *)
+Lemma checker_rejects_unhandled :
   raccepts rexpected [DHistory; KcExisting false; DCreate; KcCreate; KcWait]
-           FUEL (index_of "Install.RunWithContext" expected) (env_of (sc_fl s_install)) = true.
+           FUEL (index_of "Install.RunWithContext" expected) (env_of (sc_fl s_install)) = false.
 Proof. vm_compute. reflexivity. Qed.
-
